@@ -43,6 +43,18 @@ def run(repo: Repo, tier: str, res: CheckResult, seed: int = 0) -> None:
     res.assumptions = list(ASSUMPTIONS)
 
 
+def _error_lists(fn: ast.FunctionDef) -> Set[str]:
+    """local lists (`x = []`) that collect caught exceptions: `.append` is called on them inside an except handler"""
+    inits = {norm(a.targets[0]) for a in walk_no_nested(fn, include_root=False) if isinstance(a, ast.Assign)
+             and isinstance(a.value, ast.List) and not a.value.elts and isinstance(a.targets[0], ast.Name)}
+    out = set()
+    for h in [x for x in walk_no_nested(fn, include_root=False) if isinstance(x, ast.ExceptHandler)]:
+        for c in ast.walk(h):
+            if isinstance(c, ast.Call) and isinstance(c.func, ast.Attribute) and c.func.attr == "append" and norm(c.func.value) in inits:
+                out.add(norm(c.func.value))
+    return out
+
+
 def _is_provided_call(R: Resolver, call: ast.Call, fctx) -> bool:
     if not isinstance(call.func, ast.Name):
         return False
@@ -68,8 +80,8 @@ def trail_pairing(repo: Repo, R: Resolver, res: CheckResult) -> None:
             n_funcs += 1
             fctx = ctx_for(repo, m, fn)
             qual = m.qualname(fn)
-            all_mode = any(isinstance(c, ast.Call) and isinstance(c.func, ast.Attribute) and c.func.attr == "append"
-                           and norm(c.func.value) == "errors" for c in ast.walk(fn))
+            err_lists = _error_lists(fn)
+            all_mode = bool(err_lists)
             loops = [l for l in walk_no_nested(fn) if isinstance(l, ast.For)]
             for loop in loops:
                 # element applications inside this loop
@@ -109,7 +121,7 @@ def trail_pairing(repo: Repo, R: Resolver, res: CheckResult) -> None:
                             for path in enumerate_paths(h.body):
                                 colls = sum(1 for s in path if s[0] == "stmt" for c in ast.walk(s[1])
                                             if isinstance(c, ast.Call) and isinstance(c.func, ast.Attribute)
-                                            and c.func.attr == "append" and norm(c.func.value) == "errors"
+                                            and c.func.attr == "append" and norm(c.func.value) in err_lists
                                             and any(isinstance(x, ast.Name) and x.id == hv for x in ast.walk(c)))
                                 res.evaluated(f"collect:{m.rel}:{qual}:{h.lineno}:{len(path)}", True)
                                 if path[-1][0] == "continue":
@@ -228,7 +240,8 @@ def _counter_rule(m: ModuleInfo, fn, loop: ast.For, idx: str, qual: str, res: Ch
 
 def _epilogue_rule(m: ModuleInfo, fn, qual: str, res: CheckResult) -> None:
     res.evaluated(f"epilogue:{m.rel}:{qual}", True)
-    ifs = [s for s in fn.body if isinstance(s, ast.If) and norm(s.test) == "errors"]
+    err_lists = _error_lists(fn)
+    ifs = [s for s in fn.body if isinstance(s, ast.If) and norm(s.test) in err_lists]
     if len(ifs) != 1:
         res.add(Finding("C05", "ALL.epilogue", m.rel, qual, "if errors:", "the ALL-mode closure must end with exactly one "
                         "`if errors:` epilogue after the loop", fn.lineno))
